@@ -1336,6 +1336,31 @@ def m_opaque_cmp(I, st, c, args, body, t):
     return st, Top(deps_of(a) | deps_of(b), nm)
 
 
+def m_hm_readonly(I, st, c, args, body, t):
+    """read-only queries on the aircraft table (len / is_empty / contains_key / get / values / keys / iter): no panic, no effect;
+    a row handed out is the symbolic row of the context"""
+    nm = c.get("name")
+    d = frozenset([("table",)])
+    row_cell = I.side.get("row_cell")
+    if nm in ("len", "capacity"):
+        return st, IntV("usize", None, 0, 1 << 40, None, d)
+    if nm in ("is_empty", "contains_key"):
+        return st, BoolV(None, None, d)
+    if nm in ("get", "get_mut", "get_key_value"):
+        tgt = RefV(row_cell, (), nm == "get_mut") if row_cell is not None else Top(d, "row")
+        return st, _opt(tgt, True, d)
+    if nm in ("values", "values_mut", "iter", "iter_mut", "keys"):
+        if nm == "keys":
+            item = RefV(I.new_cell(st, IntV("u32", None, 1, (1 << 24) - 1, None, d)))
+        elif nm.startswith("values"):
+            item = RefV(row_cell, (), nm.endswith("mut")) if row_cell is not None else Top(d, "row")
+        else:
+            k = RefV(I.new_cell(st, IntV("u32", None, 1, (1 << 24) - 1, None, d)))
+            item = TupleV([k, RefV(row_cell, (), nm.endswith("mut")) if row_cell is not None else Top(d, "row")])
+        return st, IterV(None, unknown=True, deps=d, end=item)
+    return st, Top(d, nm)
+
+
 def m_noop(I, st, c, args, body, t):
     return st, UNIT
 
@@ -1483,6 +1508,9 @@ def install(models):
                 return M.m_abs_diff
             if nm == "from_str_radix":
                 return m_parse_result
+        if name.startswith("std::collections::HashMap::<K, V, S") and nm in (
+                "len", "capacity", "is_empty", "contains_key", "get", "get_key_value", "values", "keys", "iter"):
+            return m_hm_readonly
         if p == "std::cmp::Ord::clamp":
             return m_clamp
         if p in ("std::cmp::PartialOrd::lt", "std::cmp::PartialOrd::le", "std::cmp::PartialOrd::gt", "std::cmp::PartialOrd::ge") and (
